@@ -79,6 +79,10 @@ func init() {
 				}
 				o.Count("op:" + f[1])
 				switch f[1] {
+				case "janitor": // backend first_ms last_ms
+					a, _ := strconv.Atoi(f[3])
+					b, _ := strconv.Atoi(f[4])
+					return evJanitor(c.out, f[2], a, b)
 				case "reset":
 					for _, d := range s.pending { // let parked goroutines finish
 						close(d.release)
@@ -207,6 +211,19 @@ func init() {
 				for j := 0; j < 40; j++ { // drain
 					emit("ev", "deliver", "0")
 				}
+			}
+			// live components: the cleanup task and back-to-back interval changes while it is busy
+			nj := 6
+			if c.tier == "thorough" {
+				nj = 60
+			}
+			for j := 0; j < nj; j++ {
+				emit("ev", "reset")
+				a, b := 3600000, []int{10, 15, 25}[r.Intn(3)]
+				if r.Chance(50) {
+					a, b = b, a
+				}
+				emit("ev", "janitor", []string{"mem", "file"}[r.Intn(2)], itoa(a), itoa(b))
 			}
 			// the literal witnesses of the unfixed tree
 			for _, w := range [][]string{{"subscribe 0", "subscribe 1", "subscribe 2", "unsubscribe 0", "unsubscribe 2", "fire 1", "deliver 0", "deliver 0"},
